@@ -250,6 +250,7 @@ def run(ctx):
            "_save_comments is cleared before scanning and set again on every exit")
     manifest_keys(ctx)
     numbers_skipped_whole(ctx)
+    rescan_keeps_mode(ctx)
 
 def manifest_keys(ctx):
     """R09.3: #ifdef / defined() / expansion look a macro up by its bare name.  A freshly made CPPManifest parses that
@@ -347,4 +348,32 @@ def numbers_skipped_whole(ctx):
     # and the identifier branch comes from a character test that a digit fails (isalpha / '_')
     ident = [node for node in fn.walk() if node.get("k") == "if" and any(y.get("k") == "call" and callee_short(y) == "isalpha" for y in walk(node["c"]))]
     ctx.ob("R09.4", "expand_manifests|identifier-starts-with-letter", bool(ident), fn.loc(ident[0]) if ident else fn.loc(), "identifier scanning starts at isalpha()/_ only")
+
+
+
+
+def rescan_keeps_mode(ctx):
+    """R09.5: in #if every identifier that is left after macro replacement is replaced by 0 - also one that only appears
+    once a macro has been replaced (`#define A B` / `#if A == 0`).  The rescan of a replacement list must therefore run
+    in the same mode as the scan that found the macro."""
+    db = ctx.db
+    ctx.rule("R09.5", "expand_manifests() rescans a macro's replacement text with the expand_undefined mode it was itself called with")
+    fn = db.fn("CPPPreprocessor::expand_manifests")
+    mode = [p for p in fn.params if p["t"] == "bool"]
+    if not mode:
+        ctx.broken("expand_manifests: bool mode parameter not found")
+    md = mode[0]["d"]
+    idx = [i for i, p in enumerate(fn.params) if p["d"] == md][0]
+    rec = [c for c in fn.walk() if c.get("k") == "call" and c.get("f") == fn.name and len(c.get("a", [])) > idx]
+    if not rec:
+        ctx.broken("expand_manifests: the rescanning self-call not found")
+    for i, c in enumerate(rec):
+        a = strip_casts(peel(c["a"][idx]))
+        ok = a is not None and a.get("k") == "ref" and a.get("d") == md
+        ctx.ob("R09.5", "expand_manifests|rescan#%d|forwards-mode" % i, ok, fn.loc(c), "the rescan passes `%s` as expand_undefined" % (show(c["a"][idx])[:30]))
+    # the expansion of the arguments (manifest->expand) gets it too
+    ex = [c for c in fn.walk() if c.get("k") == "call" and callee_short(c) == "expand" and "this" in c]
+    for i, c in enumerate(ex):
+        ok = any((strip_casts(peel(a)) or {}).get("d") == md for a in c.get("a", []))
+        ctx.ob("R09.5", "expand_manifests|expand#%d|forwards-mode" % i, ok, fn.loc(c), "manifest->expand(...) receives the mode")
 
